@@ -15,7 +15,7 @@ import (
 // C06: queue durability across crash and reopen.
 
 // recoverQueue opens a crash image and drains it. Returns the delivered events.
-func recoverQueue(c *core.Case, cfg QConfig, img []byte, res *core.Result, what string, probe bool) (events [][]byte, pending int, ok bool) {
+func recoverQueue(c *core.Case, cfg QConfig, img []byte, res *core.Result, what string, probe bool, maxLen int) (events [][]byte, pending int, ok bool) {
 	sub := &core.Result{}
 	q := NewQWorld(cfg, QMon{Property: "C06"}, c.R, sub)
 	q.Disk = simdisk.FromImage("crash-image", img, cfg.File.DiskCap)
@@ -67,6 +67,11 @@ func recoverQueue(c *core.Case, cfg QConfig, img []byte, res *core.Result, what 
 					return
 				}
 				if n == 0 {
+					return
+				}
+				if n > maxLen {
+					fail("recovered-size", "recovered queue reports an event of %d bytes after %d events; no event of that size was ever written (max %d)", n, len(out), maxLen)
+					good = false
 					return
 				}
 				buf := make([]byte, n)
@@ -163,6 +168,12 @@ func runQCrashCase(c *core.Case) *core.Result {
 		return res
 	}
 	events := q.Events // final list; Close may drop unflushed tail only if it failed
+	maxEventLen := 4096
+	for _, e := range events {
+		if len(e) > maxEventLen {
+			maxEventLen = len(e)
+		}
+	}
 	ops := q.Disk.Log()
 
 	start := -1
@@ -233,7 +244,7 @@ func runQCrashCase(c *core.Case) *core.Result {
 			img := walker.Image(func(i int) (bool, int) { return sub[i], -1 })
 			images++
 			what := fmt.Sprintf("crash at op boundary %d (pending %d, subset #%d; flushed=%d/%d acked=%d/%d)", walker.Pos(), n, si, flushed, flushedAlt, acked, ackedAlt)
-			got, pending, ok := recoverQueue(c, cfg, img, res, what, images%9 == 0)
+			got, pending, ok := recoverQueue(c, cfg, img, res, what, images%9 == 0, maxEventLen)
 			if !ok {
 				res.Add("images", int64(images))
 				return res
